@@ -26,6 +26,9 @@ func runC41(c *mon.Ctx) {
 		"Ping, and Invoke with bad_server_salt before ack / after ack / twice / duplicated: transmissions of the request counted per msg_id (must be 2 after one " +
 		"bad_server_salt, carrying the new salt; no third one after a second). (3) traffic: with an adopted future salt, bad_server_salt is delivered inside a burst of " +
 		"0..39+0..39 unrelated server messages handled on their own goroutines; the retransmission must still carry the new salt. " +
+		"(3b) multi: 2..4 Invokes in flight under the same salt, each rejected with bad_server_salt carrying the same / different new salt, in every order: back to back, " +
+		"in one container, strictly one after the other (next rejection only after the previous retransmission was seen), interleaved with the previous request's " +
+		"retransmission and result; per msg_id exactly 2 transmissions, the second with the new salt, Invoke returns the result. " +
 		"(4) stress: concurrent Invokes with bad_server_salt on random requests under -race. " +
 		"distinct non-trivial = (frame kind, salt class) pairs, invoke plans x salt class, unit observation classes, porcupine history shapes")
 	c.Assume("refmodel MTProto 2.0 cipher and the generated mt TL encoders are trusted; the harness model of 'told'/'announced' salts follows the order in which " +
@@ -42,6 +45,12 @@ func runC41(c *mon.Ctx) {
 	k := c.N(150, 6000)
 	for i := 0; i < k; i++ {
 		if !c41Traffic(c, i) {
+			break
+		}
+	}
+	q := c.N(240, 8000)
+	for i := 0; i < q; i++ {
+		if !c41Multi(c, i) {
 			break
 		}
 	}
@@ -849,6 +858,292 @@ func c41Traffic(c *mon.Ctx, idx int) bool {
 		}
 		if _, err := ping(); err != nil {
 			return fail(err)
+		}
+	}
+	return c.Violations() < 8
+}
+
+// ---- several requests in flight under the same salt, all rejected ----
+
+type multiReq struct {
+	N        int64  `json:"n"`
+	MsgID    int64  `json:"msg_id"`
+	SeqNo    int32  `json:"seq_no"`
+	First    int64  `json:"first_salt"`
+	NewSalt  int64  `json:"new_salt"`
+	Tx       int    `json:"transmissions"`
+	Second   int64  `json:"second_salt,omitempty"`
+	Rejected bool   `json:"rejection_delivered"`
+	Answered bool   `json:"result_delivered"`
+	Returned bool   `json:"returned"`
+	Err      string `json:"invoke_error,omitempty"`
+}
+
+type multiDone struct {
+	i   int
+	err error
+}
+
+func c41Multi(c *mon.Ctx, idx int) bool {
+	r := c.RandN("c41-multi", idx)
+	preset := int64(r.Uint64() | 1)
+	l := newLink(c, r, linkOpts{start: time.Unix(1_700_000_000+int64(r.IntN(1_000_000)), 0), salt: preset})
+	if err := l.start(); err != nil {
+		c.Inconclusive("c41 multi start: " + err.Error())
+		return false
+	}
+	defer l.stop()
+	modes := []string{"back-to-back", "one-container", "strict", "interleaved", "result-with-next-rejection"}
+	mode := modes[idx%len(modes)]
+	same := (idx/len(modes))%2 == 0
+	k := 2 + r.IntN(3)
+	base := "preset"
+	variant := map[bool]string{true: "same-new-salt", false: "different-new-salts"}[same]
+	tag := fmt.Sprintf("multi-%s-%s", mode, variant)
+	var reqs []*multiReq
+	var script []string
+	witness := func(extra string) map[string]any {
+		return map[string]any{"multi": idx, "mode": mode, "variant": variant, "base_salt": base, "requests": reqs, "script": script,
+			"note": extra, "frames": l.framesCopy()}
+	}
+	fail := func(err error) bool {
+		c.Inconclusive(fmt.Sprintf("c41 multi %d (%s): %v", idx, tag, err))
+		return !errors.Is(err, errWatchdog)
+	}
+	// first client frame (session id), optionally adopt a future salt as the common stale salt
+	{
+		done := make(chan error, 1)
+		go func() { done <- l.conn.Ping(context.Background()) }()
+		var f *frame
+		for f == nil || f.TypeID != typPing {
+			var err error
+			if f, err = l.nextFrame(); err != nil {
+				return fail(err)
+			}
+		}
+		l.push(pongTL(f.MsgID, f.PingID), false)
+		if _, err := waitErr(l, done); err != nil {
+			return fail(err)
+		}
+	}
+	if r.IntN(2) == 0 {
+		base = "adopted-future-salt"
+		now := l.clk.Now()
+		vu := int(now.Unix()) + 600 + r.IntN(3000)
+		if err := l.pushSync(tl(&mt.FutureSalts{Now: int(now.Unix()), Salts: []mt.FutureSalt{{ValidSince: vu - 3600, ValidUntil: vu, Salt: int64(r.Uint64() | 1)}}})); err != nil {
+			return fail(err)
+		}
+	}
+	doneCh := make(chan multiDone, 8)
+	byMsg := map[int64]*multiReq{}
+	common := int64(r.Uint64() | 1)
+	for i := 0; i < k; i++ {
+		q := &multiReq{N: int64(i + 1), NewSalt: common}
+		if !same {
+			q.NewSalt = int64(r.Uint64() | 1)
+		}
+		reqs = append(reqs, q)
+		go func(i int) {
+			var out hResp
+			err := l.conn.Invoke(context.Background(), &hReq{N: int64(i + 1)}, &out)
+			if err == nil && out.N != int64(i+1) {
+				err = fmt.Errorf("harness: response %d for request %d", out.N, i+1)
+			}
+			doneCh <- multiDone{i, err}
+		}(i)
+		for q.Tx == 0 {
+			f, err := l.nextFrame()
+			if err != nil {
+				return fail(err)
+			}
+			if f.TypeID == typReq && f.ReqN == q.N {
+				q.MsgID, q.SeqNo, q.First, q.Tx = f.MsgID, f.SeqNo, f.Salt, 1
+				byMsg[f.MsgID] = q
+			}
+		}
+		if q.First != reqs[0].First {
+			c.Inconclusive(fmt.Sprintf("c41 multi %d: requests were not sent under the same salt", idx))
+			return true
+		}
+	}
+	told := map[int64]bool{}
+	violated := false
+	// take accounts one client frame.
+	take := func(f *frame) {
+		q := byMsg[f.MsgID]
+		if f.TypeID != typReq || q == nil {
+			return
+		}
+		q.Tx++
+		c.Eval(1)
+		switch {
+		case q.Tx > 2:
+			violated = true
+			c.Violate(fmt.Sprintf("retry|transmissions=%d-want-2|%s", q.Tx, tag), witness(""))
+		case !q.Rejected:
+			violated = true
+			c.Violate("retry|retransmission-without-rejection|"+tag, witness(""))
+		default:
+			q.Second = f.Salt
+			exact := mode == "strict" || mode == "interleaved" || mode == "result-with-next-rejection" || same
+			if (exact && f.Salt != q.NewSalt) || !told[f.Salt] {
+				violated = true
+				c.Violate("retry|retransmission-without-new-salt|"+tag, witness(fmt.Sprintf("request %d", q.N)))
+			}
+		}
+	}
+	drain := func() {
+		for {
+			select {
+			case f := <-l.notify:
+				take(f)
+			default:
+				return
+			}
+		}
+	}
+	returned := func(d multiDone) {
+		drain() // a frame sent before the call returned is already queued
+		q := reqs[d.i]
+		q.Returned = true
+		if d.err != nil {
+			q.Err = d.err.Error()
+		}
+		c.Eval(1)
+		switch {
+		case q.Rejected && q.Tx < 2:
+			violated = true
+			c.Violate("retry|no-retransmission-after-bad-server-salt|"+tag, witness(fmt.Sprintf("request %d returned: %v", q.N, d.err)))
+		case d.err != nil:
+			violated = true
+			c.Violate("retry|invoke-failed-although-result-was-sent|"+tag, witness(fmt.Sprintf("request %d returned: %v", q.N, d.err)))
+		case !q.Answered:
+			violated = true
+			c.Violate("retry|invoke-returned-without-result|"+tag, witness(fmt.Sprintf("request %d", q.N)))
+		}
+	}
+	// until waits for a condition while accounting frames and returns.
+	until := func(cond func() bool) error {
+		for !cond() && !violated {
+			select {
+			case f := <-l.notify:
+				take(f)
+			case d := <-doneCh:
+				returned(d)
+			case err := <-l.runDone:
+				l.runDone <- err
+				return fmt.Errorf("run ended: %v", err)
+			case <-time.After(waitLimit):
+				return errWatchdog
+			}
+		}
+		return nil
+	}
+	reject := func(q *multiReq) []byte {
+		q.Rejected = true
+		told[q.NewSalt] = true
+		script = append(script, fmt.Sprintf("bad_server_salt(request %d, new salt %d)", q.N, q.NewSalt))
+		return badSaltTL(q.MsgID, q.SeqNo, q.NewSalt)
+	}
+	answer := func(q *multiReq) []byte {
+		q.Answered = true
+		script = append(script, fmt.Sprintf("rpc_result(request %d)", q.N))
+		return resultTL(q.MsgID, respTL(q.N))
+	}
+	order := r.Perm(k)
+	var err error
+	switch mode {
+	case "back-to-back":
+		for _, i := range order {
+			l.push(reject(reqs[i]), false)
+		}
+	case "one-container":
+		var ps [][]byte
+		for _, i := range order {
+			ps = append(ps, reject(reqs[i]))
+		}
+		l.push(l.container(ps...), false)
+	case "strict":
+		// the next rejection is delivered only after the previous request was seen
+		// again on the wire: its rejection has been fully handled (new salt stored).
+		for _, i := range order {
+			q := reqs[i]
+			l.push(reject(q), false)
+			script = append(script, fmt.Sprintf("wait for the retransmission of request %d", q.N))
+			if err = until(func() bool { return q.Tx >= 2 || q.Returned }); err != nil || violated {
+				break
+			}
+		}
+	case "interleaved":
+		for _, i := range order {
+			q := reqs[i]
+			l.push(reject(q), false)
+			if err = until(func() bool { return q.Tx >= 2 || q.Returned }); err != nil || violated {
+				break
+			}
+			l.push(answer(q), false)
+			script = append(script, fmt.Sprintf("wait for request %d to return", q.N))
+			if err = until(func() bool { return q.Returned }); err != nil || violated {
+				break
+			}
+		}
+	case "result-with-next-rejection":
+		var prev *multiReq
+		for _, i := range order {
+			q := reqs[i]
+			if prev != nil {
+				l.push(answer(prev), false)
+			}
+			l.push(reject(q), false)
+			if err = until(func() bool { return q.Tx >= 2 || q.Returned }); err != nil || violated {
+				break
+			}
+			prev = q
+		}
+	}
+	if err == nil && !violated {
+		err = until(func() bool {
+			for _, q := range reqs {
+				if q.Tx < 2 && !q.Returned {
+					return false
+				}
+			}
+			return true
+		})
+	}
+	if err == nil && !violated {
+		for _, q := range reqs {
+			if !q.Answered {
+				l.push(answer(q), false)
+			}
+		}
+		err = until(func() bool {
+			for _, q := range reqs {
+				if !q.Returned {
+					return false
+				}
+			}
+			return true
+		})
+	}
+	if err != nil {
+		return fail(err)
+	}
+	if !violated {
+		drain()
+		for _, q := range reqs {
+			if q.Tx != 2 {
+				c.Violate(fmt.Sprintf("retry|transmissions=%d-want-2|%s", q.Tx, tag), witness(""))
+				violated = true
+			}
+		}
+	}
+	if !violated {
+		c.Distinct(fmt.Sprintf("multi/%s/%s/k%d/%s", mode, variant, k, base))
+		c.Add("multi_scenarios", 1)
+		c.Add("multi_requests_rejected", int64(k))
+		if idx < 10 && idx%5 == 2 {
+			c.Sample("multi", map[string]any{"mode": mode, "variant": variant, "requests": reqs, "script": script})
 		}
 	}
 	return c.Violations() < 8
